@@ -439,6 +439,10 @@ type sbuild struct {
 	// Flip > 0: the repository switches to revision Flip right after this build's HEAD of the
 	// index has been answered (from revision Rev): the GET brings the etag and body of Flip
 	Flip int `json:"flip,omitempty"`
+	// Prune: before this build <datahash>.dat.tar is removed from the package's cache directory (an entry
+	// as older versions wrote it, "old caches without the uncompressed file"): cachedPackage then goes
+	// through PackageData's rebuild
+	Prune bool `json:"prune,omitempty"`
 }
 
 func (sb sbuild) getRev() int {
@@ -473,6 +477,9 @@ func (d *driver) runScenario(name, pkg string, builds []sbuild) {
 			}
 			d.w.flipAfterHead(sb.Flip)
 		}
+		if sb.Prune {
+			d.w.pruneTar(cache, b)
+		}
 		hook := ""
 		if sb.Crash.Kind != "" {
 			hook = hookFor(sb.Crash, signed, idxInProc)
@@ -485,8 +492,8 @@ func (d *driver) runScenario(name, pkg string, builds []sbuild) {
 		r := d.w.run(runSpec{Cache: cache, Pkgs: pk, CrashAt: hook})
 		done := !r.Killed && r.Res.OK
 		completed = append(completed, gal.Bool(done))
-		terms = append(terms, fmt.Sprintf("{| b_idir := %s; b_etag := %s; b_etag_get := %s; b_pdir := %s; b_apk := %s; b_crash := %s |}",
-			gal.Str(idir), gal.Str(rev.b32), gal.Str(grev.b32), gal.Str(pdirOf(b)), apkTerm(b), sb.Crash.term()))
+		terms = append(terms, fmt.Sprintf("{| b_idir := %s; b_etag := %s; b_etag_get := %s; b_pdir := %s; b_apk := %s; b_crash := %s; b_prune := %s |}",
+			gal.Str(idir), gal.Str(rev.b32), gal.Str(grev.b32), gal.Str(pdirOf(b)), apkTerm(b), sb.Crash.term(), gal.Bool(sb.Prune)))
 		desc := map[string]any{"exp": "scenario", "name": name, "pkg": pkg, "builds": builds[:i+1], "hooks": append([]string{}, hooks...),
 			"killed": r.Killed, "result": workerResult{OK: r.Res.OK, Digest: r.Res.Digest, DiffID: r.Res.DiffID, Err: r.Res.Err}}
 		if done {
@@ -584,16 +591,23 @@ func (d *driver) stageCrash() {
 	// revision 1 must be filed under revision 1's etag (seeded C19-2 files it under revision 0's)
 	d.runScenario("update-between-head-and-get", "solo", []sbuild{{Rev: 0, Flip: 1}, {Rev: 0}, {Rev: 1}, {Rev: 0}})
 	d.runScenario("update-between-head-and-get-kill", "solo", []sbuild{{Rev: 0, Flip: 1, Crash: crashSpec{"idx", 5}}, {Rev: 0}, {Rev: 1}})
-	// the in-place rebuild of <hash>.dat.tar (candidate C19-F1): killed between
-	// advertising .dat.tar.gz and .dat.tar, then a build killed inside the rebuild
-	sd, ud := 20, 15
+	// PackageData's rebuild of <hash>.dat.tar (findings C19-F1/F1b, fixed by 90139a3: temporary file + rename).
+	// Since 6729dee (control section advertised last) no kill of a populating build leaves control + data
+	// without the tar, so the rebuild is only reached on entries WITHOUT the uncompressed file (what older
+	// versions wrote, or what a cache pruner leaves): the tar is removed before the build (Prune), then the
+	// build is killed inside the rebuild at every hook point, then recovery
 	for _, rk := range []int{2, 3, 4} {
-		d.runScenario(fmt.Sprintf("rebuild-kill-%d", rk), "solo", []sbuild{{Rev: 0, Crash: crashSpec{"pkg", sd}}, {Rev: 0, Crash: crashSpec{"rebuild", rk}}, {Rev: 0}})
+		d.runScenario(fmt.Sprintf("rebuild-kill-%d", rk), "solo", []sbuild{{Rev: 0}, {Rev: 0, Prune: true, Crash: crashSpec{"rebuild", rk}}, {Rev: 0}})
 	}
-	d.runScenario("rebuild-complete", "solo", []sbuild{{Rev: 0, Crash: crashSpec{"pkg", sd}}, {Rev: 0}, {Rev: 0}})
-	d.runScenario("rebuild-kill-2-unsigned", "plain", []sbuild{{Rev: 0, Crash: crashSpec{"pkg", ud}}, {Rev: 0, Crash: crashSpec{"rebuild", 2}}, {Rev: 0}})
+	d.runScenario("rebuild-complete", "solo", []sbuild{{Rev: 0}, {Rev: 0, Prune: true}, {Rev: 0}})
+	d.runScenario("rebuild-kill-2-unsigned", "plain", []sbuild{{Rev: 0}, {Rev: 0, Prune: true, Crash: crashSpec{"rebuild", 2}}, {Rev: 0}})
+	d.runScenario("rebuild-killed-twice", "solo", []sbuild{{Rev: 0}, {Rev: 0, Prune: true, Crash: crashSpec{"rebuild", 2}}, {Rev: 0, Crash: crashSpec{"rebuild", 3}}, {Rev: 0}})
+	// the old replays (kill between advertising .dat.tar.gz and .dat.tar): a miss today, kept
+	sd, ud := 20, 15
+	d.runScenario("kill-before-tar-then-kill", "solo", []sbuild{{Rev: 0, Crash: crashSpec{"pkg", sd - 2}}, {Rev: 0, Crash: crashSpec{"pkg", 10}}, {Rev: 0}})
 	if d.tier == "thorough" {
-		d.runScenario("rebuild-kill-pre-symlink", "solo", []sbuild{{Rev: 0, Crash: crashSpec{"pkg", 21}}, {Rev: 0, Crash: crashSpec{"rebuild", 2}}, {Rev: 0}})
+		d.runScenario("kill-before-tar-unsigned", "plain", []sbuild{{Rev: 0, Crash: crashSpec{"pkg", ud - 2}}, {Rev: 0}, {Rev: 0}})
+		d.runScenario("rebuild-kill-after-update", "solo", []sbuild{{Rev: 0}, {Rev: 1}, {Rev: 0, Prune: true, Crash: crashSpec{"rebuild", 3}}, {Rev: 1, Prune: true, Crash: crashSpec{"rebuild", 2}}, {Rev: 0}, {Rev: 1}})
 		for _, k := range signedPts {
 			d.runScenario(fmt.Sprintf("update-then-kill-%d", k), "solo", []sbuild{{Rev: 0}, {Rev: 1, Crash: crashSpec{"pkg", k}}, {Rev: 1}, {Rev: 0}})
 		}
@@ -731,23 +745,26 @@ func (d *driver) stageForced() {
 		pre    string // a preliminary build on the same cache, killed at this point
 	}
 	cases := []fc{
-		// A holds between advertising .dat.tar.gz and .dat.tar; B (a complete build) rebuilds the tar in place
+		// A holds between advertising .dat.tar.gz and .dat.tar; B runs to the end (with the control section
+		// advertised last B sees a miss and populates everything itself; before 6729dee it rebuilt the tar)
 		{"hold-A-before-tar/B-complete", "pkg.post-advertise-dat#1", "", "", ""},
 		// A holds before its first symlink; B populates everything; A then finds every destination present
-		{"hold-A-before-ctl/B-complete", "pkg.pre-advertise-ctl#1", "", "", ""},
+		{"hold-A-before-first-advertise/B-complete", "expand.streams-closed#1", "", "", ""},
 		{"hold-A-at-pre-symlink/B-complete", "advertise.pre-symlink#2", "", "", ""},
-		// B is HELD inside the rebuild (empty file under the final name) while A finishes: no process is killed
-		{"hold-A-before-tar/B-held-in-rebuild", "pkg.post-advertise-dat#1", "", "rebuild.created#1", ""},
-		// TWO concurrent rebuilders of one <hash>.dat.tar (the populating build was killed before advertising
-		// it): A is held inside PackageData right after creating its temporary file, B rebuilds and publishes,
-		// A goes on and publishes its own copy over it (os.Rename replaces atomically). Each needs its OWN
-		// temporary file: with a shared one A's rename finds nothing (mutation rebuild-fixed-tmp)
-		{"killed-before-tar/A-held-in-rebuild/B-rebuilds-too", "rebuild.created#1", "", "", "pkg.post-advertise-dat#1"},
+		// the entry has no <hash>.dat.tar (pre = "prune": a complete build, then the tar is removed — an entry as
+		// older versions wrote it). B is HELD inside the rebuild (its temporary file is empty) while A, a
+		// complete build that rebuilds too, finishes: no process is killed (finding C19-F1b before 90139a3)
+		{"pruned-tar/A-complete-rebuild/B-held-in-rebuild", "rebuild.closed#1", "", "rebuild.created#1", "prune"},
+		// TWO concurrent rebuilders of one <hash>.dat.tar: A is held inside PackageData right after creating its
+		// temporary file, B rebuilds and publishes, A goes on and publishes its own copy over it (os.Rename
+		// replaces atomically). Each needs its OWN temporary file: with a shared one A's rename finds nothing
+		// (mutation rebuild-fixed-tmp); with the final name opened O_EXCL the second one fails or reads a partial file
+		{"pruned-tar/A-held-in-rebuild/B-rebuilds-too", "rebuild.created#1", "", "", "prune"},
 		// ... A has decompressed everything into its temporary file and is held before close+rename, B has just
 		// created its own (empty) temporary file and is held; A publishes; a third build C reads <hash>.dat.tar
 		// while B is still inside the rebuild. With a shared temporary name B's os.Create truncates the file A
 		// is about to publish: C would read an empty tar under the final name
-		{"killed-before-tar/A-held-after-copy/B-held-after-create", "rebuild.copied#1", "", "rebuild.created#1", "pkg.post-advertise-dat#1"},
+		{"pruned-tar/A-held-after-copy/B-held-after-create", "rebuild.copied#1", "", "rebuild.created#1", "prune"},
 	}
 	// needs the hook cached.after-sig-stat (fixes/hooks-c19-b.patch); without it B would not be held
 	if src, err := os.ReadFile(filepath.Join(os.Getenv("VERIF_REPO"), "pkg/apk/apk/implementation.go")); err == nil &&
@@ -764,7 +781,11 @@ func (d *driver) stageForced() {
 	for _, c := range cases {
 		cache := d.newCache()
 		d.w.setRev(0)
-		if c.pre != "" {
+		if c.pre == "prune" {
+			r0 := d.w.run(runSpec{Cache: cache, Pkgs: pk})
+			d.checkBuild("forced "+c.name+" (populating build)", 0, pk, cache, r0, map[string]any{"exp": "forced", "name": c.name, "builder": "populate"})
+			d.w.pruneTar(cache, d.w.built(0, "solo"))
+		} else if c.pre != "" {
 			d.w.run(runSpec{Cache: cache, Pkgs: pk, CrashAt: c.pre})
 		}
 		wfA := filepath.Join(d.w.root, fmt.Sprintf("waitA-%d", d.ncache))
@@ -774,7 +795,9 @@ func (d *driver) stageForced() {
 		if err := cmdA.Start(); err != nil {
 			continue
 		}
-		waitFor(wfA+".reached", 20*time.Second)
+		if !waitFor(wfA+".reached", 10*time.Second) {
+			d.violation("forced-interleaving-not-reached", map[string]any{"exp": "forced", "name": c.name, "builder": "A", "wait_at": c.waitAt})
+		}
 		desc := map[string]any{"exp": "forced", "name": c.name}
 		if c.bWait == "" {
 			rB := d.w.run(runSpec{Cache: cache, Pkgs: pk, CrashAt: c.bCrash})
@@ -791,7 +814,9 @@ func (d *driver) stageForced() {
 			if err := cmdB.Start(); err != nil {
 				continue
 			}
-			waitFor(wfB+".reached", 20*time.Second)
+			if !waitFor(wfB+".reached", 10*time.Second) {
+				d.violation("forced-interleaving-not-reached", map[string]any{"exp": "forced", "name": c.name, "builder": "B", "wait_at": c.bWait})
+			}
 			d.addListing(cache, "forced/"+c.name+"/both-held", desc)
 			os.WriteFile(wfA, nil, 0o644)
 			rA := finish(cmdA, resA, tA)
@@ -999,6 +1024,27 @@ func main() {
 	}
 	if *stage == "all" || *stage == "crash" {
 		d.stageCrash()
+	}
+	if *stage == "all" || *stage == "shared" {
+		d.stageShared()
+	}
+	if *stage == "all" || *stage == "faildl" {
+		d.stageFailedDownload()
+	}
+	if *stage == "all" || *stage == "offrev" {
+		d.stageOfflineRevisions()
+	}
+	if *stage == "all" || *stage == "offkeys" {
+		d.stageOfflineKeys()
+	}
+	if *stage == "all" || *stage == "flights" {
+		d.stageFlights()
+	}
+	if *stage == "all" || *stage == "offfix" {
+		d.stageOfflineFixtures()
+	}
+	if *stage == "all" || *stage == "cli" {
+		d.stageCLI()
 	}
 	if *stage == "all" || *stage == "trace" {
 		d.stageTrace()
